@@ -20,6 +20,7 @@ package main
 import (
 	"fmt"
 	"go/token"
+	"go/types"
 	"os"
 	"strings"
 )
@@ -43,8 +44,13 @@ type scheduler struct {
 	cur      int
 	fatal    interface{}
 	deadlock bool
-	// scheduling policy (see pick): 0 lowest-numbered first, 1 highest-numbered first, 2 round robin
-	policy int
+	// scheduling policy (see pick): 0 lowest-numbered first, 1 highest-numbered first, 2 round robin,
+	// 3 explored: every choice among runnable goroutines is a path decision, at most `explore` of
+	// them differing from policy 0 (vScheduleExplore)
+	policy  int
+	explore int  // deviations from lowest-numbered-first still allowed on this path (policy 3)
+	preempt bool // policy 3: a goroutine may also be descheduled before a channel / lock operation that would not block
+	nchoice int
 	acks   chan struct{}
 }
 
@@ -76,6 +82,24 @@ func (s *scheduler) runnable(t *gthread) bool {
 // the highest-numbered one (the goroutine started last goes first) or the next one in round-robin order.
 func (s *scheduler) pick(except *gthread) *gthread {
 	switch s.policy {
+	case 3:
+		var cand []*gthread
+		for _, t := range s.threads {
+			if t != except && s.runnable(t) {
+				cand = append(cand, t)
+			}
+		}
+		if len(cand) == 0 {
+			return nil
+		}
+		if len(cand) == 1 || s.explore <= 0 {
+			return cand[0]
+		}
+		k := s.choice(len(cand))
+		if k != 0 {
+			s.explore--
+		}
+		return cand[k]
 	case 1:
 		for k := len(s.threads) - 1; k >= 0; k-- {
 			if t := s.threads[k]; t != except && s.runnable(t) {
@@ -98,6 +122,60 @@ func (s *scheduler) pick(except *gthread) *gthread {
 		}
 	}
 	return nil
+}
+
+// anyOther reports whether some thread other than except could run (no decision is taken).
+func (s *scheduler) anyOther(except *gthread) bool {
+	for _, t := range s.threads {
+		if t != except && s.runnable(t) {
+			return true
+		}
+	}
+	return false
+}
+
+// choice forks the path over 0..n-1 (a named input "sched.<k>", so that a counterexample's schedule
+// is part of its model and a pinned replay reproduces it).
+func (s *scheduler) choice(n int) int {
+	xv := newInput(fmt.Sprintf("sched.%d", s.nchoice), types.Int)
+	s.nchoice++
+	x, isSym := xv.(sv)
+	if !isSym {
+		c := int(asInt64(xv))
+		if c < 0 || c >= n {
+			panic(pathAbort{"infeasible", false})
+		}
+		return c
+	}
+	assume(mkAnd(mkCmp(opSle, mkBV(64, 0), x.t), mkCmp(opSlt, x.t, mkBV(64, uint64(n)))))
+	return int(concretizeInt(x))
+}
+
+// preemptPoint is called before a channel or lock operation: under the explored policy the running
+// goroutine may be descheduled here in favour of any other runnable one (costs one deviation).
+func (s *scheduler) preemptPoint(what string) {
+	if s.policy != 3 || !s.preempt || s.explore <= 0 {
+		return
+	}
+	me := s.me()
+	var cand []*gthread
+	for _, t := range s.threads {
+		if t != me && s.runnable(t) {
+			cand = append(cand, t)
+		}
+	}
+	if len(cand) == 0 {
+		return
+	}
+	k := s.choice(len(cand) + 1)
+	if k == 0 {
+		return
+	}
+	s.explore--
+	me.ready = func() bool { return true }
+	me.what = "preempted before " + what
+	s.transfer(cand[k-1])
+	s.wait(me, what)
 }
 
 // transfer hands the baton to next (starting its host goroutine on first use).
@@ -177,7 +255,7 @@ func (s *scheduler) yield() {
 	me.ready = func() bool { return true }
 	// lowest-numbered first would pick me again if I am thread 0: make the others go by
 	// parking until none of them is runnable
-	me.ready = func() bool { return s.pick(me) == nil || s.fatal != nil }
+	me.ready = func() bool { return !s.anyOther(me) || s.fatal != nil }
 	s.transfer(next)
 	s.wait(me, "yield")
 }
